@@ -25,6 +25,9 @@ class Round:
     __slots__ = ("lines", "poll", "now", "timeout", "ready", "interest", "devs", "mem", "vfds", "kids")
 
 
+SPUN = [0]          # histories killed by the wall-clock budget so far in this process
+
+
 class Sim:
     """one pmsim process.  Usage:
          s = Sim(exe, conf_path); r = s.next_round()  -> Round (what the daemon did, then its POLL line)
@@ -37,7 +40,9 @@ class Sim:
         if env:
             e.update(env)
         self.errf = open(stderr_path, "wb") if stderr_path else subprocess.DEVNULL
-        self.p = subprocess.Popen(["timeout", "-s", "KILL", "120", exe, conf] + list(args), stdin=subprocess.PIPE,
+        # (a change that makes the daemon spin without a system call costs the whole budget per history: after a few such kills the
+        #  property is violated anyway, and the remaining histories of the run get a short budget)
+        self.p = subprocess.Popen(["timeout", "-s", "KILL", "120" if SPUN[0] < 6 else "20", exe, conf] + list(args), stdin=subprocess.PIPE,
                                   stdout=subprocess.PIPE, stderr=self.errf, env=e, bufsize=0)
         self.events = []         # recorded rounds (list of list of event lines) = the replayable history
         self.trace = []          # every trace line of the run
@@ -112,7 +117,7 @@ class Sim:
         elif rc == 99:
             st["kind"] = "sanitizer"
         elif rc in (137, -9, 124):
-            st["kind"] = "killed-timeout"
+            st["kind"] = "killed-timeout"; SPUN[0] += 1
         elif any(l.startswith("EXIT-CALLED") for l in fl):
             st["kind"] = "exit"; st["status"] = rc
         else:
